@@ -29,10 +29,13 @@ import (
 func NewStack(via string) (outer *fifo.Group, inner *fifo.Group) {
 	outer = fifo.NewGroup()
 
+	// The framing check has to see Transfer-Encoding, which is a hop-by-hop
+	// header: run it before the hop-by-hop headers are removed.
+	outer.AddRequestModifier(header.NewBadFramingModifier())
+
 	hbhm := header.NewHopByHopModifier()
 	outer.AddRequestModifier(hbhm)
 	outer.AddRequestModifier(header.NewForwardedModifier())
-	outer.AddRequestModifier(header.NewBadFramingModifier())
 
 	vm := header.NewViaModifier(via)
 	outer.AddRequestModifier(vm)
